@@ -150,7 +150,13 @@ fn driver(args: &[String]) -> i32 {
             }
         };
         match status {
-            None => infra_problem.push("worker exceeded the time budget (inconclusive)".to_string()),
+            None => {
+                infra_problem.push("worker exceeded the time budget (inconclusive)".to_string());
+                // its scratch directory is named after its pid
+                for base in ["/dev/shm", "/tmp"] {
+                    let _ = std::fs::remove_dir_all(format!("{}/sqverif-{}", base, ch.id()));
+                }
+            }
             Some(s) if !s.success() => infra_problem.push(format!("worker ended with {:?}", s)),
             Some(_) => match std::fs::read(&out).ok().and_then(|b| serde_json::from_slice::<WorkerOut>(&b).ok()) {
                 None => infra_problem.push("worker output unreadable".to_string()),
